@@ -78,6 +78,14 @@ CLAIMED["C07"] = dict(
     note="Trusted: the reference model (strings), the harness' complement table. The position transform of annotations is checked for linear windows and reverse complements only.",
 )
 
+CLAIMED["C16"] = dict(
+    level="exploration",
+    design="DESIGN.md 4 (C16)",
+    technique="deterministic simulation of the real command mains (child processes) under seeded schedules and drawn worker/batch configurations; independent reference interpreter of a stated option subset as oracle (kept / discarded / edited records, routing, mate ranks)",
+    text="Generated records and drawn option subsets (single, pairs, larger, repeated options, boundary values) are run through the real obigrep, obiannotate, obidistribute and obimultiplex mains under seeded schedules and drawn --max-cpu / --batch-size; a reference interpreter written against the documented meaning of the options decides which records must be kept, discarded or edited and how, which file each record must land in, and that mates stay at the same rank. The interpreter decides the combination logic; the simulator is what reaches the schedule-dependent half (complement file written concurrently, mate synchrony through PairTo, routing by Distribute, shared worker closures, map-ordered option tables).",
+    note="Trusted: the 300-line reference interpreter (Go regexp for patterns). Stated subset only: no --aho-corasick, --pattern / approx-pattern, taxonomy options, scripts, -p beyond comparisons of annotations.count; obiannotate is not combined with selection options (whether unselected records are dropped is not documented).",
+)
+
 PENDING = {
 }
 
